@@ -135,7 +135,17 @@ func runBatch(k *json.Encoder, n *int, format string, fps int, ts []time.Duratio
 			res, msg = "extract", fmt.Sprintf("%v: %d fields for %d cues, %d re-read", err, len(fs), len(s.Items), len(s2.Items))
 		}
 	}
-	same := res == "ok" && bytes.Equal(out.Bytes(), out2.Bytes())
+	// the second write is compared on its timestamps (C16 speaks about timestamps; whole-file identity is C19's)
+	same := false
+	if res == "ok" {
+		fs2, err2 := extractTimes(format, out2.Bytes())
+		same = err2 == nil && len(fs2) == len(fs)
+		for i := range fs2 {
+			if same && fs2[i] != fs[i] {
+				same = false
+			}
+		}
+	}
 	for i := 0; i+1 < len(ts); i += 2 {
 		for j := 0; j < 2; j++ {
 			*n++
